@@ -71,7 +71,7 @@ def TU(name, src, cflags=None, pre=(), post=(), defs=(), extra_text='', native_l
 def G(id, tu, fn, props, ins=(), setup='', call=None, ret=None, pre=None, post=None,
       replace=(), loops=False, split=None, solvers=('cadical',), timeout=300, flags=(),
       min_obl=1, must=('postcondition',), unwind=None, bounded=None, enforce=True,
-      native=True, tier='quick', body=None, extra_replace=(), note='', nondet_static=False,
+      native=True, tier='quick', body=None, extra_replace=(), note='', nondet_static=False, needs=None, contract=None, weight=1,
       sweep=None, reach=True, defs=(), direct=False, fix=None, loopinv=None, reach_hint='', kind='contract', files=(), whitelist=()):
     """Register an obligation group.
     ins: list of (ctype, name) scalar harness inputs (named in_*).
@@ -86,7 +86,7 @@ def G(id, tu, fn, props, ins=(), setup='', call=None, ret=None, pre=None, post=N
                       ret=ret, pre=pre, post=post, replace=list(replace), loops=loops, split=split,
                       solvers=list(solvers), timeout=timeout, flags=list(flags), min_obl=min_obl,
                       must=list(must), unwind=unwind, bounded=bounded, enforce=enforce, native=native,
-                      tier=tier, body=body, note=note, nondet_static=nondet_static, sweep=sweep,
+                      tier=tier, body=body, note=note, nondet_static=nondet_static, sweep=sweep, needs=needs or {}, contract=contract, weight=weight,
                       reach=reach, defs=list(defs), direct=direct, fix=dict(fix or {}), loopinv=loopinv, reach_hint=reach_hint, kind=kind, files=list(files), whitelist=list(whitelist))
     ORDER.append(id)
 
@@ -147,10 +147,15 @@ def enforcers_of(fn, tu):
 
 
 def closure(prop, tier, stop=()):
+    """groups tagged with the property plus, transitively, the groups enforcing every contract they assume.
+    A group may narrow the enforcers of an assumed contract to the cases it can reach (needs={fn: regex over group ids}; the
+    case split of the enforcers is by the same input variable the group fixes).  In the quick tier enforcers registered as
+    thorough-only are not run: they are returned in `deferred` and reported as assumptions of the quick run."""
     sel = [g for g in GROUPS.values() if prop in g['props'] and (tier == 'thorough' or g['tier'] == 'quick')]
     seen = {g['id'] for g in sel}
     todo = list(sel)
     missing = []
+    deferred = {}
     while todo:
         g = todo.pop()
         for fn in g['replace']:
@@ -159,17 +164,19 @@ def closure(prop, tier, stop=()):
             if fn in stop:
                 continue  # assumed here, proved by another registered check (listed in the evidence)
             es = enforcers_of(fn, g['tu'])
+            if fn in g['needs']:
+                es = [e for e in es if re.search(g['needs'][fn], e['id'])]
             if not es:
                 missing.append((g['id'], fn))
             for e in es:
                 if tier != 'thorough' and e['tier'] != 'quick':
-                    # a contract may only be assumed if it is proved in the same run
-                    pass
+                    deferred.setdefault(fn, set()).add(e['id'])
+                    continue
                 if e['id'] not in seen:
                     seen.add(e['id'])
                     todo.append(e)
     out = [GROUPS[i] for i in ORDER if i in seen]
-    return out, missing
+    return out, missing, {k: sorted(v) for k, v in deferred.items()}
 
 
 # ---------------------------------------------------------------- known findings
@@ -528,7 +535,8 @@ def run_group(ctx, g, obj):
             return a, 'direct mode (no dfcc): statics keep their initialisers'
         cmd = ['goto-instrument', '--dfcc', entry]
         if g['enforce']:
-            cmd += ['--enforce-contract', g['fn']]
+            # a function may carry several small contracts (one per case): contract=<name of the declaration carrying it>
+            cmd += ['--enforce-contract', g['fn'] + ('/' + g['contract'] if g.get('contract') else '')]
         for r in g['replace']:
             cmd += ['--replace-call-with-contract', r]
         if (g['loops'] or g['loopinv']) and not noloops:
@@ -588,7 +596,8 @@ def run_group(ctx, g, obj):
     need_agree = 2 if ctx.tier == 'thorough' else 1
 
     procs = {}
-    slots = CPU_SEM.acquire(len(solvers))
+    # weight: CPU slots reserved per back end; memory-hungry groups (5-10 GB each) reserve several so that fewer of them run side by side
+    slots = CPU_SEM.acquire(min(NCPU, len(solvers) * g.get('weight', 1)))
     for s in solvers:
         procs[s] = Proc(base + SOLVER_ARGS[s], ctx.work, MEM_KB)
     done = {}
@@ -827,7 +836,7 @@ def check_property(pid, tier, seed, verbose=False, only=None, keep=False):
     load_registry()
     meta = load_meta().get(pid, {})
     known = [k for k in load_known()]
-    groups, missing = closure(pid, tier, stop=set(meta.get('closure_stop', {})))
+    groups, missing, deferred = closure(pid, tier, stop=set(meta.get('closure_stop', {})))
     if only:
         groups = [g for g in groups if re.search(only, g['id'])]
     os.makedirs(os.path.join(ROOT, '.work'), exist_ok=True)
@@ -978,11 +987,13 @@ def check_property(pid, tier, seed, verbose=False, only=None, keep=False):
         assumptions_scan=scan_assumptions(),
         known_findings=[l for l in kf_lines],
         contracts_assumed_from_other_checks=meta.get('closure_stop', {}),
+        contracts_assumed_in_this_tier_enforced_in_thorough_tier=deferred,
         group_notes={g['id']: g['note'] for g in groups if g.get('note')},
         exhaustive=False,
     )
     ev = dict(property_id=pid, tier=tier, seed=seed, level=level, coverage=cov,
-              assumptions=meta.get('assumptions', []) + ['every __CPROVER_assume in /verif is listed under coverage.assumptions_scan'],
+              assumptions=meta.get('assumptions', []) + ['every __CPROVER_assume in /verif is listed under coverage.assumptions_scan'] +
+                          ['quick tier assumes the contract of %s for the cases enforced only by thorough-tier groups %s' % (k, ', '.join(v)) for k, v in sorted(deferred.items())],
               wall_s=round(time.time() - t0, 1), violations=len(violations))
     # a run restricted with --only is a development aid: it must not replace the property's evidence record
     with open(os.path.join(evid_dir, ('%s.only.json' if only else '%s.json') % pid), 'w') as f:
